@@ -185,11 +185,11 @@ void fam_prefixed(Tape& t, Stats& st, size_t forced = SIZE_MAX, int forcedType =
 // ---------- (d) typed write / typed read inverse ----------
 void fam_inverse(Tape& t, Stats& st) {
 	Stream::DynamicMemoryWriter w;
-	struct Item { int kind; uint64_t v; std::vector<uint16_t> vec; std::string str; };
+	struct Item { int kind; uint64_t v; std::vector<uint16_t> vec; std::string str; std::u16string s16; std::u32string s32; std::vector<uint32_t> v32; };
 	std::vector<Item> items;
 	unsigned n = 1 + t.below(20);
 	for (unsigned i = 0; i < n; ++i) {
-		Item it; it.kind = int(t.below(7)); it.v = t.u64();
+		Item it; it.kind = int(t.below(12)); it.v = t.u64();
 		switch (it.kind) {
 		case 0: w.Write(uint8_t(it.v)); break;
 		case 1: w.Write(uint16_t(it.v)); break;
@@ -197,6 +197,11 @@ void fam_inverse(Tape& t, Stats& st) {
 		case 3: w.Write(uint64_t(it.v)); break;
 		case 4: { Rec14 r{uint32_t(it.v), uint16_t(it.v >> 32), it.v * 3}; w.Write(r); break; }
 		case 5: { size_t k = t.below(40); for (size_t j = 0; j < k; ++j) it.vec.push_back(t.u16()); w.Write<uint32_t>(it.vec); break; }
+		case 7: { size_t k = t.below(20); for (size_t j = 0; j < k; ++j) it.s16.push_back(char16_t(t.u16())); w.Write<uint8_t>(it.s16); break; }      // wide characters: sizes count elements, bytes = elements x width
+		case 8: { size_t k = t.below(12); for (size_t j = 0; j < k; ++j) it.s32.push_back(char32_t(t.u32())); w.Write<uint32_t>(it.s32); break; }
+		case 9: { size_t k = t.below(20); for (size_t j = 0; j < k; ++j) it.s16.push_back(char16_t(t.u16())); w.Write(it.s16); break; }                 // unprefixed: the reader is told the length
+		case 10: { size_t k = t.below(20); for (size_t j = 0; j < k; ++j) it.v32.push_back(t.u32()); w.Write<int16_t>(it.v32); break; }
+		case 11: { size_t k = t.below(30); for (size_t j = 0; j < k; ++j) it.str.push_back(char(t.u8())); w.Write(it.str); break; }
 		default: { size_t k = t.below(30); for (size_t j = 0; j < k; ++j) it.str.push_back(char(t.u8())); w.Write<uint16_t>(it.str); break; }
 		}
 		items.push_back(it);
@@ -210,7 +215,12 @@ void fam_inverse(Tape& t, Stats& st) {
 		case 3: { uint64_t x; rd.Read(x); V_CHECK(x == it.v, "u64 inverse"); break; }
 		case 4: { Rec14 x; rd.Read(x); V_CHECK(x.a == uint32_t(it.v) && x.b == uint16_t(it.v >> 32) && x.c == it.v * 3, "struct inverse"); break; }
 		case 5: { std::vector<uint16_t> x; rd.Read<uint32_t>(x); V_CHECK(x == it.vec, "prefixed vector inverse"); break; }
-		default: { std::string x; rd.Read<uint16_t>(x); V_CHECK(x == it.str, "prefixed string inverse"); break; }
+		case 7: { std::u16string x = u"stale"; rd.Read<uint8_t>(x); V_CHECK(x == it.s16, "prefixed u16string inverse (" << it.s16.size() << " characters)"); break; }
+		case 8: { std::u32string x; rd.Read<uint32_t>(x); V_CHECK(x == it.s32, "prefixed u32string inverse (" << it.s32.size() << " characters)"); break; }
+		case 9: { std::u16string x(it.s16.size(), u'?'); rd.Read(x); V_CHECK(x == it.s16, "u16string inverse (" << it.s16.size() << " characters)"); break; }
+		case 10: { std::vector<uint32_t> x(2, 7); rd.Read<int16_t>(x); V_CHECK(x == it.v32, "prefixed u32 vector inverse"); break; }
+		case 11: { std::string x(it.str.size(), '?'); rd.Read(x); V_CHECK(x == it.str, "string inverse"); break; }
+		default: { std::string x = "stale"; rd.Read<uint16_t>(x); V_CHECK(x == it.str, "prefixed string inverse"); break; }
 		}
 	}
 	V_CHECK(rd.Position() == rd.Length(), "typed reads consumed " << rd.Position() << " of " << rd.Length() << " written bytes");
@@ -291,10 +301,18 @@ void filewriter_case(unsigned flags, bool exists, const std::vector<uint8_t>& ol
 	bool canExisting = flags & FW::CanOpenExisting, canNew = flags & FW::CanOpenNew, trunc = flags & FW::Truncate, app = flags & FW::Append;
 	std::string what; bool invalidArg = false, threw = false;
 	try {
-		FW w(path, static_cast<FW::OpenMode>(flags));
-		if (how == 1) { size_t a = data.size() / 3, b = data.size() / 2; w.Write(data.data(), a); w.Write(data.data() + a, b - a); w.Write(data.data() + b, data.size() - b); }
-		else if (how == 2) { FW w2(std::move(w)); size_t a = data.size() / 2; w2.Write(data.data(), a); w2.Write(data.data() + a, data.size() - a); }
-		else w.Write(data.data(), data.size());
+		if (how == 3) {   // factory shape: the writer is moved into a longer-lived object and the original is destroyed BEFORE the data is written
+			std::unique_ptr<FW> keep;
+			{ FW w0(path, static_cast<FW::OpenMode>(flags)); w0.Write(data.data(), data.size() / 3); keep = std::make_unique<FW>(std::move(w0)); }
+			std::vector<char> churn(65536, 'c'); (void)churn;
+			for (size_t i = data.size() / 3; i < data.size(); i += 7) keep->Write(data.data() + i, std::min<size_t>(7, data.size() - i));
+			keep.reset();
+		} else {
+			FW w(path, static_cast<FW::OpenMode>(flags));
+			if (how == 1) { size_t a = data.size() / 3, b = data.size() / 2; w.Write(data.data(), a); w.Write(data.data() + a, b - a); w.Write(data.data() + b, data.size() - b); }
+			else if (how == 2) { FW w2(std::move(w)); size_t a = data.size() / 2; w2.Write(data.data(), a); w2.Write(data.data() + a, data.size() - a); }
+			else w.Write(data.data(), data.size());
+		}
 	}
 	catch (const std::invalid_argument& e) { invalidArg = true; threw = true; what = e.what(); }
 	catch (const std::exception& e) { threw = true; what = e.what(); }
@@ -327,7 +345,7 @@ void fam_filewriter(Tape& t, Stats& st) {
 	auto old = t.bytes(t.below(40)); auto data = t.bytes(t.below(40));
 	if (t.below(6) == 0) data = t.expand(t.pick<uint32_t>({4095, 4096, 4097, 8191, 8192, 8193, 65536, 70001}));     // beyond one stream buffer
 	if (t.below(8) == 0) old = t.expand(t.pick<uint32_t>({4096, 8192, 8193, 20000}));
-	unsigned how = unsigned(t.below(3));
+	unsigned how = unsigned(t.below(4));
 	filewriter_case(flags, exists, old, data, st, how);
 	st.cls("fw:how" + std::to_string(how));
 	st.cls("fam:filewriter");
@@ -379,7 +397,7 @@ void run_sweep(Stats& st) {
 				filewriter_case(flags, ex, old, data, st);
 				// the same cell with split writes / a moved writer, and with data larger than a stream buffer
 				std::vector<uint8_t> big(70001); for (size_t i = 0; i < big.size(); ++i) big[i] = uint8_t(i * 31 + (i >> 9));
-				for (unsigned how = 1; how < 3; ++how) { filewriter_case(flags, ex, old, data, st, how); if (variant == 0) filewriter_case(flags, ex, old, big, st, how); st.evaluations += 2; }
+				for (unsigned how = 1; how < 4; ++how) { filewriter_case(flags, ex, old, data, st, how); if (variant == 0) filewriter_case(flags, ex, old, big, st, how); st.evaluations += 2; }
 			}
 	// (a) all 2-step histories over the boundary table on a 5-byte buffer
 	for (unsigned o1 = 0; o1 < 5; ++o1) for (unsigned c1 = 0; c1 < 14; ++c1) for (unsigned o2 = 0; o2 < 5; ++o2) for (unsigned c2 = 0; c2 < 14; ++c2) {
